@@ -667,8 +667,38 @@ TABLE = [
 _COMPILED = [(re.compile(p), f) for p, f in TABLE]
 
 
+def _camel(snake):
+    return "".join(w.capitalize() for w in snake.split("_"))
+
+
+def m_enum_is(I, st, a):
+    """EnumAsInner / strum `is_<variant>` on an enum whose variant order is registered"""
+    v = deref(I, st, a[0])
+    m = re.search(r"::is_(\w+)$", I.strip_turbofish(I.current_callee))
+    if not (isinstance(v, SEnum) and m and v.ty in VARIANTS and _camel(m.group(1)) in VARIANTS[v.ty]):
+        raise Inconclusive(f"is_<variant> on {v} ({I.current_callee})")
+    return SBool(is_variant(v, VARIANTS[v.ty].index(_camel(m.group(1)))))
+
+
+def m_enum_as(I, st, a):
+    """EnumAsInner `as_<variant>() -> Option<&T>` (single-field variants)"""
+    r = a[0]
+    v = deref(I, st, r)
+    m = re.search(r"::as_(\w+)$", I.strip_turbofish(I.current_callee))
+    if not (isinstance(v, SEnum) and m and v.ty in VARIANTS and _camel(m.group(1)) in VARIANTS[v.ty]):
+        raise Inconclusive(f"as_<variant> on {v} ({I.current_callee})")
+    idx = VARIANTS[v.ty].index(_camel(m.group(1)))
+    if idx not in v.pay or 0 not in v.pay[idx]:
+        return SEnum("Option", z3.If(is_variant(v, idx), z3.BitVecVal(1, 64), z3.BitVecVal(0, 64)), {1: {0: SOpaque("variant payload", taint=True)}})
+    return SEnum("Option", z3.If(is_variant(v, idx), z3.BitVecVal(1, 64), z3.BitVecVal(0, 64)), {1: {0: v.pay[idx][0]}})
+
+
 def lookup(name):
     for p, f in _COMPILED:
         if p.search(name):
             return f
+    if re.search(r"^[\w:]+::is_[a-z_0-9]+$", name) and not name.startswith(("std::", "core::")):
+        return m_enum_is
+    if re.search(r"^[\w:]+::as_[a-z_0-9]+$", name) and not name.startswith(("std::", "core::")):
+        return m_enum_as
     return None
